@@ -22,12 +22,16 @@ BIG_POOL = ["piano", "violin", "flute", "cello", "trumpet", "church_organ", "cla
             "contrabass", "french_horn", "bassoon", "piccolo", "acoustic_guitar", "vibraphone", "marimba", "harpsichord"]
 
 
-def rand_midi_score(rng, offgrid=False, many=False):
+def rand_midi_score(rng, offgrid=False, many=False, too_many=False):
     n = rng.randrange(1, 5)
     names = []
     if many:
         # an orchestra: 8..14 different programs, so that the channel numbering has to step over the drum channel
         names = [f"{b}__0" for b in rng.sample(BIG_POOL, rng.randrange(8, 15))]
+        n = 0
+    if too_many:
+        # 16..19 different programs: more than MIDI has channels for (known finding: the export raises)
+        names = [f"{b}__0" for b in rng.sample(BIG_POOL, rng.randrange(16, 20))]
         n = 0
     for _ in range(n):
         base = rng.choice(INSTR_POOL)
@@ -100,7 +104,7 @@ class MidiFile_(Stream):
 
     def gen(self, rng, n):
         for i in range(n):
-            sc = rand_midi_score(rng, offgrid=(i % 4 == 3), many=(i % 12 == 5))
+            sc = rand_midi_score(rng, offgrid=(i % 4 == 3), many=(i % 12 == 5), too_many=(i % 60 == 17))
             # cases stay inside the statement's guard (a pitch outside 0..127 makes mido raise, which the model does not describe)
             for _ in range(20):
                 try:
@@ -108,7 +112,7 @@ class MidiFile_(Stream):
                         break
                 except Exception:
                     pass
-                sc = rand_midi_score(rng, offgrid=(i % 4 == 3), many=(i % 12 == 5))
+                sc = rand_midi_score(rng, offgrid=(i % 4 == 3), many=(i % 12 == 5), too_many=(i % 60 == 17))
             yield {"score": sc, "tempo": rng.choice([120, 60, 100, 40, 200, 77]),
                    "sig": list(rng.choice(SIGS))}
 
@@ -150,6 +154,9 @@ class MidiFile_(Stream):
         if not self.in_guard(case, want):
             return None
         if mlang.is_exc(r):
+            progs = {("drums" if nm.startswith("drums") else self.gm().get(nm.split("__")[0], 0)) for nm in self.names(case)} | {0}
+            if len(progs - {"drums"}) > 15 and "channel must be in range" in str(r):
+                return {"sig": "midi-export-raises:more-than-15-programs", "msg": f"{len(progs)} programs: {r}"}
             return {"sig": "midi-export-raises", "msg": str(r)}
         if r["division"] != 480:
             return {"sig": "midi-division", "msg": str(r["division"])}
